@@ -98,7 +98,7 @@ OnlyUserValues == /\ \A n \in 1..Len(st.e) : st.e[n] \in UserVals
 
 RECURSIVE CcSetToSeq(_)
 CcSetToSeq(S) == IF S = {} THEN <<>> ELSE LET x == CHOOSE y \in S : TRUE IN <<x>> \o CcSetToSeq(S \ {x})
-JS(s) == [s EXCEPT !.opts = CcSetToSeq(s.opts), !.acc = CcSetToSeq(s.acc)]
+JS(s) == [s EXCEPT !.opts = CcSetToSeq(s.opts), !.acc = CcSetToSeq(s.acc), !.lvl = CcSetToSeq(s.lvl)]
 
 Emit == (OUT = "" \/ ~Terminal) \/
         Serialize(ToJson([init |-> JS(init), prog |-> prog, sched |-> sched,
